@@ -25,7 +25,7 @@ theorem fin_next {N : Nat} {d : Cfg} {m : QEv} {rp : Option Nat} {l1 l2 : List Q
     (h : Mid N d m.id rp) (he : d.evq = l1 ++ m :: l2) (h1 : ∀ e ∈ l1, e.id ≠ m.id) (h2 : ∀ e ∈ l2, e.id ≠ m.id)
     (hu : m.unacked = true) (hstk : evStack k' = evStack m.kind) (hflat : FlatK k')
     (htk : tasksIn (todoOf m.kind) = tasksIn (todoOf k') + (if rp.isSome then 1 else 0))
-    (hvis : visits (todoOf m.kind) = visits (todoOf k') + 1) (hnb : batchKey k' = []) :
+    (hvis : visits (todoOf k') + 1 ≤ visits (todoOf m.kind)) (hnb : batchKey k' = []) :
     PInv N ((List.foldl Cfg.act d ([Act.pubEv k', Act.ackEv m.id] ++ ackRof rp))) ∧
       mu2 ((List.foldl Cfg.act d ([Act.pubEv k', Act.ackEv m.id] ++ ackRof rp))) ≤ mu2 d := by
   have hm : m ∈ d.evq := by rw [he]; simp
